@@ -201,6 +201,34 @@ fn edge_props(prop: &str, tier: &str, seed: u64, threads: usize, out: &str) {
         if fl.starts_with('z') { gen_edge::zst(l) } else { l }
     });
     extra.insert("weak_hash_keys".into(), format!("{} histories with colliding key hashes resp. zero-sized values", nw * wfls.len()));
+    if prop == "C03" {
+        // two live node objects with one key (nodes are keys in the model, so these histories are judged by the
+        // statement alone): connect / try_connect act on the objects they are called on, whatever their keys
+        exec::new_section();
+        let ntw = if quick { 400 } else { 6000 };
+        spread_with(&mut ctxs, ntw, |i, ctx| {
+            let mut rng = Rng::new(seed.wrapping_mul(97).wrapping_add(i as u64));
+            let fl = ["di", "sdi", "un", "sun"][i % 4];
+            let nn = 2 + rng.below(if i % 3 == 0 { 12 } else { 4 });
+            // (removals find the neighbour's entry by KEY, so with two objects of one key `disconnect`/`isolate` are
+            // ambiguous - observation O4 of DESIGN section 8.1; these histories only add edges)
+            let mut lines = gen_edge::twin_history(&mut rng, fl, &format!("tw{i}"), nn, if quick { 60 } else { 120 });
+            lines.retain(|l| !l.starts_with("disconnect ") && !l.starts_with("isolate "));
+            let mut c = Ctx::default();
+            c.oracles = vec!["twincontract".into()];
+            exec::run_program(&lines, &mut c);
+            ctx.side_prog.extend(lines.iter().cloned());
+            if let Some(f) = c.fails.first() {
+                ctx.fail(&lines[0], f.line, "contract", format!("(two node objects with one key) {}", f.msg));
+                if let Some(f) = ctx.fails.last_mut() {
+                    f.side = true;
+                }
+            }
+            ctx.count("twins");
+            ctx.count("cases");
+        });
+        extra.insert("twins".into(), format!("{ntw} histories with two live node objects of one key (identity-based connect contract, not modelled)"));
+    }
     write_outputs(out, &ctxs, extra);
 }
 
